@@ -69,7 +69,10 @@ Definition sod_policy : policy := [
   ("objectMap.m@cache", by_lock (LMap ICache));
   (* the pending (async) store and its per-type maps *)
   ("objectStore.m@asyncw", pending_table);
-  ("objectMap.m@asyncw", by_lock (LMap IAsync))
+  ("objectMap.m@asyncw", by_lock (LMap IAsync));
+  (* the collection directories: calls of os / ioutil that create, truncate, write or remove are
+     writes, calls that open, stat or list are reads (extractor rule fsRule) *)
+  ("FS.dir", by_handle)
 ].
 
 (** Boolean equality of policies, used to check that the copy of this table
